@@ -149,7 +149,7 @@ pub fn check(_ctx: &Ctx, input: &Input) -> CaseResult {
     let script = exec::gen_script(&im, &mut ch, 12);
     let want_import = !da.imp_funcs.is_empty() && (ch.bool() || da.exports.iter().all(|e| e.kind != ExtKind::Func));
 
-    // ---- (c) replacements that do not apply are refused and change nothing:
+    // ---- (c) a replacement that is refused (returns Err) changes nothing:
     // replace_imported_func on a local function, replace_exported_func on a
     // function that is not exported or on a re-exported import
     {
@@ -196,10 +196,12 @@ pub fn check(_ctx: &Ctx, input: &Input) -> CaseResult {
                     }
                 })?;
                 if r {
-                    return Err(Failure::new(
-                        "inapplicable-replacement-accepted",
-                        format!("{} (function index {:?}) returned Ok [{}]", what, targets[k], origin),
-                    ));
+                    // the property does not say these must be refused; a walrus
+                    // that performs them is not judged here
+                    let _ = what;
+                    out.label("inapplicable-replacement-accepted(not judged)");
+                    refused = 0;
+                    break;
                 }
                 refused += 1;
             }
